@@ -117,7 +117,8 @@ Record Inv (c : cfg) (s : st) : Prop := MkInv {
   i_asm : stat s <> Init -> length (a_ops s) = wc c /\ length (a_srs s) = wc c /\ sorted (a_ops s) /\ sorted (a_srs s);
   i_spl : q_splitters_accumulate (qk c) = false -> stat s = Init \/ splitters (sto s) = 1;
   i_pnd : q_keep_pending (qk c) = false /\ q_keep_savepoint (qk c) = false ->
-          forall p, pend (sto s) = Some p -> map fst (p_ops p) = a_ops s /\ map fst (p_srs p) = a_srs s
+          forall p, pend (sto s) = Some p -> map fst (p_ops p) = a_ops s /\ map fst (p_srs p) = a_srs s;
+  i_tk : q_ticker_once (qk c) = false -> (ticker s = 1 <-> stat s = Running)
 }.
 
 Lemma inv_init : forall c, Inv c init.
@@ -131,6 +132,7 @@ Proof.
   - intros H; contradiction.
   - intros _. left. reflexivity.
   - intros _ p H; discriminate.
+  - intros _. split; intros H; discriminate.
 Qed.
 
 Lemma is_dead_false : forall c s k e, is_dead c s k = false -> In e (hb s) -> fst e = k -> expired c (now s) e = false.
@@ -144,7 +146,7 @@ Qed.
 
 Lemma purge_inv : forall c s, Inv c s -> Inv c (purge c s).
 Proof.
-  intros c s I. destruct I. constructor; cbn [purge ops srs hb stat a_ops a_srs sto dep_ck now]; auto.
+  intros c s I. destruct I. constructor; cbn [purge ops srs hb stat a_ops a_srs sto dep_ck now ticker]; auto.
   - apply sorted_filter; assumption.
   - apply sorted_filter; assumption.
   - intros n Hn. apply filter_In in Hn. destruct Hn as [Hn Hd]. apply negb_true_iff in Hd.
@@ -155,10 +157,10 @@ Proof.
     apply filter_In. split; [exact He|]. apply negb_true_iff. eapply is_dead_false; eauto.
 Qed.
 
-Lemma start_begin_inv : forall c s, Inv c s ->
+Lemma start_begin_inv : forall c s, Inv c s -> stat s <> Running ->
   (wc c <= length (ops s))%nat -> (wc c <= length (srs s))%nat -> Inv c (fst (start_begin c s)).
 Proof.
-  intros c s I Ho Hr. destruct I. unfold start_begin.
+  intros c s I Hnr Ho Hr. destruct I. unfold start_begin.
   constructor; cbn [fst ops srs hb stat a_ops a_srs sto dep_ck now pend completed ctr splitters]; auto.
   - destruct i_sto0 as [A B]. split; [exact A|]. destruct (q_keep_pending (qk c)); [exact B|].
     destruct (pend (sto s)) as [p0|] eqn:P0; [|intros; discriminate].
@@ -171,12 +173,24 @@ Proof.
   - intros H. right. rewrite H. reflexivity.
   - intros [H H2]. rewrite H. destruct (pend (sto s)) as [p0|]; [|intros; discriminate].
     rewrite H2. cbn [andb]. intros; discriminate.
+  - intros Q. split; [|discriminate]. intros T. apply (i_tk0 Q) in T. contradiction.
 Qed.
 
-Lemma set_stat_inv : forall c s x, Inv c s -> stat s <> Init -> Inv c (set_stat s x).
+Lemma tk_stop_ne1 : forall t, tk_stop t <> 1.
+Proof. intros t. unfold tk_stop. destruct (t =? 0); discriminate. Qed.
+
+Lemma set_stat_inv : forall c s, Inv c s -> stat s <> Init -> Inv c (set_stat s Paused).
 Proof.
-  intros c s x I Hn. destruct I. constructor; cbn [set_stat ops srs hb stat a_ops a_srs sto dep_ck now]; auto.
-  intros H. right. destruct (i_spl0 H) as [E|E]; [contradiction | exact E].
+  intros c s I Hn. destruct I. constructor; cbn [set_stat ops srs hb stat a_ops a_srs sto dep_ck now ticker]; auto.
+  - intros H. right. destruct (i_spl0 H) as [E|E]; [contradiction | exact E].
+  - intros _. split; [intros T; exfalso; eapply tk_stop_ne1; eauto | discriminate].
+Qed.
+
+Lemma go_running_inv : forall c s, Inv c s -> stat s <> Init -> Inv c (go_running c s).
+Proof.
+  intros c s I Hn. destruct I. constructor; cbn [go_running ops srs hb stat a_ops a_srs sto dep_ck now ticker]; auto.
+  - intros H. right. destruct (i_spl0 H) as [E|E]; [contradiction | exact E].
+  - intros Q. unfold tk_arm. rewrite Q. split; reflexivity.
 Qed.
 
 Lemma evaluate_inv : forall c s, Inv c s -> Inv c (fst (evaluate c s)).
@@ -184,9 +198,9 @@ Proof.
   intros c s I. apply purge_inv in I. unfold evaluate. set (s' := purge c s) in *.
   destruct (stat s') eqn:E.
   - destruct (Nat.ltb (length (srs s')) (wc c) || Nat.ltb (length (ops s')) (wc c)) eqn:C; [exact I|].
-    apply orb_false_iff in C. destruct C as [C1 C2]. apply PeanoNat.Nat.ltb_ge in C1, C2. apply start_begin_inv; assumption.
+    apply orb_false_iff in C. destruct C as [C1 C2]. apply PeanoNat.Nat.ltb_ge in C1, C2. apply start_begin_inv; try assumption; congruence.
   - destruct (Nat.ltb (length (srs s')) (wc c) || Nat.ltb (length (ops s')) (wc c)) eqn:C; [exact I|].
-    apply orb_false_iff in C. destruct C as [C1 C2]. apply PeanoNat.Nat.ltb_ge in C1, C2. apply start_begin_inv; assumption.
+    apply orb_false_iff in C. destruct C as [C1 C2]. apply PeanoNat.Nat.ltb_ge in C1, C2. apply start_begin_inv; try assumption; congruence.
   - exact I.
   - destruct (healthy s'); [exact I|]. cbn [fst]. apply set_stat_inv; [exact I | congruence].
 Qed.
@@ -224,7 +238,7 @@ Lemma set_sto_inv : forall c s so,
   (q_keep_pending (qk c) = false /\ q_keep_savepoint (qk c) = false -> forall p, pend so = Some p -> map fst (p_ops p) = a_ops s /\ map fst (p_srs p) = a_srs s) ->
   Inv c (set_sto s so).
 Proof.
-  intros c s so I A B C D. destruct I. constructor; cbn [set_sto ops srs hb stat a_ops a_srs sto dep_ck now]; auto.
+  intros c s so I A B C D. destruct I. constructor; cbn [set_sto ops srs hb stat a_ops a_srs sto dep_ck now ticker]; auto.
   intros H. rewrite C. auto.
 Qed.
 
@@ -260,21 +274,21 @@ Proof.
 Qed.
 
 (* ---------------------------------------------------------------- steps: the state the job evaluates *)
-(* [pre s o] is the state on which evaluateClusterStatus runs in step [o] (None: the step evaluates nothing) *)
-Definition pre (s : st) (o : op) : option st :=
+(* [pre c s o] is the state on which evaluateClusterStatus runs in step [o] (None: the step evaluates nothing) *)
+Definition pre (c : cfg) (s : st) (o : op) : option st :=
   match o with
-  | ORegOp n => Some (MkSt (now s) (ins n (ops s)) (srs s) (hb_set (true, n) (now s) (hb s)) (stat s) (a_ops s) (a_srs s) (dep_ck s) (sto s))
-  | ORegSr n => Some (MkSt (now s) (ops s) (ins n (srs s)) (hb_set (false, n) (now s) (hb s)) (stat s) (a_ops s) (a_srs s) (dep_ck s) (sto s))
-  | ODeregOp n => Some (MkSt (now s) (rem n (ops s)) (srs s) (hb s) (stat s) (a_ops s) (a_srs s) (dep_ck s) (sto s))
-  | ODeregSr n => Some (MkSt (now s) (ops s) (rem n (srs s)) (hb s) (stat s) (a_ops s) (a_srs s) (dep_ck s) (sto s))
+  | ORegOp n => Some (MkSt (now s) (ins n (ops s)) (srs s) (hb_set (true, n) (now s) (hb s)) (stat s) (a_ops s) (a_srs s) (dep_ck s) (sto s) (ticker s))
+  | ORegSr n => Some (MkSt (now s) (ops s) (ins n (srs s)) (hb_set (false, n) (now s) (hb s)) (stat s) (a_ops s) (a_srs s) (dep_ck s) (sto s) (ticker s))
+  | ODeregOp n => Some (MkSt (now s) (rem n (ops s)) (srs s) (hb s) (stat s) (a_ops s) (a_srs s) (dep_ck s) (sto s) (ticker s))
+  | ODeregSr n => Some (MkSt (now s) (ops s) (rem n (srs s)) (hb s) (stat s) (a_ops s) (a_srs s) (dep_ck s) (sto s) (ticker s))
   | OFin ok => match stat s with
-               | Starting => Some (set_stat s (if ok then Running else Paused))
+               | Starting => Some (if ok then go_running c s else set_stat s Paused)
                | _ => None
                end
   | _ => None
   end.
 
-Lemma step_eval : forall c s o s1, pre s o = Some s1 ->
+Lemma step_eval : forall c s o s1, pre c s o = Some s1 ->
   fst (step c s o) = fst (evaluate c s1) /\
   o_deps (snd (step c s o)) = snd (evaluate c s1) /\
   o_status (snd (step c s o)) = status_code (stat (fst (evaluate c s1))).
@@ -282,11 +296,12 @@ Proof.
   intros c s o s1 H. destruct o; cbn [pre] in H; try discriminate.
   1-4: inversion H; subst; clear H; cbn [step];
        match goal with |- context [evaluate ?cc ?x] => destruct (evaluate cc x) as [s2 ds] end; cbn; auto.
-  destruct (stat s) eqn:E; try discriminate. inversion H; subst; clear H. cbn [step]. rewrite E.
-  destruct ok; match goal with |- context [evaluate ?cc ?x] => destruct (evaluate cc x) as [s2 ds] end; cbn; auto.
+  destruct (stat s) eqn:E; try discriminate. cbn [step]. rewrite E.
+  destruct ok; inversion H; subst; clear H;
+    match goal with |- context [evaluate ?cc ?x] => destruct (evaluate cc x) as [s2 ds] end; cbn; auto.
 Qed.
 
-Lemma step_noeval : forall c s o, pre s o = None ->
+Lemma step_noeval : forall c s o, pre c s o = None ->
   o_deps (snd (step c s o)) = [] /\ stat (fst (step c s o)) = stat s /\
   ops (fst (step c s o)) = ops s /\ srs (fst (step c s o)) = srs s /\ hb (fst (step c s o)) = hb s /\
   a_ops (fst (step c s o)) = a_ops s /\ a_srs (fst (step c s o)) = a_srs s.
@@ -294,7 +309,7 @@ Proof.
   intros c s o H. destruct o; cbn [pre] in H; try discriminate; cbn [step].
   - cbn. auto 10.
   - destruct (stat s) eqn:E; try discriminate; cbn; auto 10.
-  - destruct (stat s) eqn:E; cbn; auto 10.
+  - destruct (ticker s =? 1); cbn; auto 10.
     destruct (create_checkpoint (sto s) (a_ops s) (a_srs s)) as [so [id|]]; cbn; auto 10.
   - destruct (stat s) eqn:E; cbn; auto 10.
     destruct (create_savepoint (sto s) (a_ops s) (a_srs s)) as [so [[id cr]|]]; cbn; auto 10.
@@ -302,10 +317,10 @@ Proof.
   - destruct (ack_sr (sto s) n id) as [[so r] pub]. cbn. auto 10.
 Qed.
 
-Lemma pre_inv : forall c s o s1, Inv c s -> pre s o = Some s1 -> Inv c s1.
+Lemma pre_inv : forall c s o s1, Inv c s -> pre c s o = Some s1 -> Inv c s1.
 Proof.
   intros c s o s1 I H. destruct o; cbn [pre] in H; try discriminate.
-  - inversion H; subst; clear H. destruct I. constructor; cbn [ops srs hb stat a_ops a_srs sto dep_ck now]; auto.
+  - inversion H; subst; clear H. destruct I. constructor; cbn [ops srs hb stat a_ops a_srs sto dep_ck now ticker]; auto.
     + apply sorted_ins; assumption.
     + intros m Hm. apply In_ins in Hm. destruct (N.eq_dec m n) as [->|Hne].
       * exists ((true, n), now s). split; [apply In_hb_set; left; reflexivity | reflexivity].
@@ -313,7 +328,7 @@ Proof.
         apply In_hb_set. right. split; [exact He|]. rewrite Hk. intros X; inversion X; contradiction.
     + intros m Hm. destruct (i_hbr0 m Hm) as [e [He Hk]]. exists e. split; [|exact Hk].
       apply In_hb_set. right. split; [exact He|]. rewrite Hk. discriminate.
-  - inversion H; subst; clear H. destruct I. constructor; cbn [ops srs hb stat a_ops a_srs sto dep_ck now]; auto.
+  - inversion H; subst; clear H. destruct I. constructor; cbn [ops srs hb stat a_ops a_srs sto dep_ck now ticker]; auto.
     + apply sorted_ins; assumption.
     + intros m Hm. destruct (i_hbo0 m Hm) as [e [He Hk]]. exists e. split; [|exact Hk].
       apply In_hb_set. right. split; [exact He|]. rewrite Hk. discriminate.
@@ -321,23 +336,24 @@ Proof.
       * exists ((false, n), now s). split; [apply In_hb_set; left; reflexivity | reflexivity].
       * destruct Hm as [->|Hm]; [contradiction|]. destruct (i_hbr0 m Hm) as [e [He Hk]]. exists e. split; [|exact Hk].
         apply In_hb_set. right. split; [exact He|]. rewrite Hk. intros X; inversion X; contradiction.
-  - inversion H; subst; clear H. destruct I. constructor; cbn [ops srs hb stat a_ops a_srs sto dep_ck now]; auto.
+  - inversion H; subst; clear H. destruct I. constructor; cbn [ops srs hb stat a_ops a_srs sto dep_ck now ticker]; auto.
     + apply sorted_filter; assumption.
     + intros m Hm. apply In_rem in Hm. apply i_hbo0, Hm.
-  - inversion H; subst; clear H. destruct I. constructor; cbn [ops srs hb stat a_ops a_srs sto dep_ck now]; auto.
+  - inversion H; subst; clear H. destruct I. constructor; cbn [ops srs hb stat a_ops a_srs sto dep_ck now ticker]; auto.
     + apply sorted_filter; assumption.
     + intros m Hm. apply In_rem in Hm. apply i_hbr0, Hm.
-  - destruct (stat s) eqn:E; try discriminate. inversion H; subst; clear H. apply set_stat_inv; [exact I | congruence].
+  - destruct (stat s) eqn:E; try discriminate. inversion H; subst; clear H.
+    destruct ok; [apply go_running_inv | apply set_stat_inv]; try exact I; congruence.
 Qed.
 
 Lemma step_inv : forall c s o, Inv c s -> Inv c (fst (step c s o)).
 Proof.
-  intros c s o I. destruct (pre s o) as [s1|] eqn:P.
+  intros c s o I. destruct (pre c s o) as [s1|] eqn:P.
   - destruct (step_eval c s o s1 P) as [-> _]. apply evaluate_inv. eapply pre_inv; eauto.
   - destruct o; cbn [pre] in P; try discriminate; cbn [step].
     + destruct I. constructor; cbn; auto.
     + destruct (stat s); try discriminate; exact I.
-    + destruct (stat s) eqn:E; try exact I.
+    + destruct (ticker s =? 1) eqn:E; [|exact I].
       unfold create_checkpoint. destruct (pend (sto s)) as [p|] eqn:Pn; [exact I|]. cbn [fst].
       pose proof (i_sto _ _ I) as [A B].
       apply set_sto_inv; cbn [completed ctr pend splitters]; auto; try lia.
@@ -447,7 +463,7 @@ Qed.
 Lemma step_deps : forall c s o d, Inv c s -> In d (o_deps (snd (step c s o))) ->
   o_deps (snd (step c s o)) = [d] /\ dep_ok c (fst (step c s o)) d.
 Proof.
-  intros c s o d I Hd. destruct (pre s o) as [s1|] eqn:P.
+  intros c s o d I Hd. destruct (pre c s o) as [s1|] eqn:P.
   - destruct (step_eval c s o s1 P) as [E1 [E2 _]]. rewrite E2 in *. rewrite E1.
     destruct (evaluate_deps c s1 d (pre_inv _ _ _ _ I P) Hd) as [A [B _]]. auto.
   - destruct (step_noeval c s o P) as [E _]. rewrite E in Hd. contradiction.
@@ -503,12 +519,12 @@ Proof.
 Qed.
 
 (* what [pre] keeps of the state when the op is not a (re-)registration of key k *)
-Lemma pre_keeps : forall s o s1 k t, pre s o = Some s1 -> stat s = Running ->
+Lemma pre_keeps : forall c s o s1 k t, pre c s o = Some s1 -> stat s = Running ->
   (forall n, o = ORegOp n -> k <> (true, n)) -> (forall n, o = ORegSr n -> k <> (false, n)) ->
   In (k, t) (hb s) ->
   In (k, t) (hb s1) /\ now s1 = now s /\ stat s1 = Running /\ a_ops s1 = a_ops s /\ a_srs s1 = a_srs s.
 Proof.
-  intros s o s1 k t P E H1 H2 Hin. destruct o; cbn [pre] in P; try discriminate.
+  intros c s o s1 k t P E H1 H2 Hin. destruct o; cbn [pre] in P; try discriminate.
   - inversion P; subst; clear P. cbn. repeat split; auto. apply In_hb_set. right. split; [exact Hin|]. cbn. intros X. eapply H1; eauto.
   - inversion P; subst; clear P. cbn. repeat split; auto. apply In_hb_set. right. split; [exact Hin|]. cbn. intros X. eapply H2; eauto.
   - inversion P; subst; clear P. cbn. auto.
@@ -540,7 +556,7 @@ Proof.
   - destruct (stat s); try (cbn; split; [lia | congruence]).
     destruct ok; match goal with |- context [evaluate ?cc ?x] => pose proof (EV x) as X; destruct (evaluate cc x) as [s2 ds] end;
       cbn [fst snd o_published mk_obs] in *; rewrite X; cbn; split; try lia; congruence.
-  - destruct (stat s); try (cbn; split; [lia | congruence]).
+  - destruct (ticker s =? 1); try (cbn; split; [lia | congruence]).
     unfold create_checkpoint. destruct (pend (sto s)); cbn; split; try lia; congruence.
   - destruct (stat s); try (cbn; split; [lia | congruence]).
     unfold create_savepoint. destruct (pend (sto s)) as [p|]; [destruct (p_sp p)|]; cbn; split; try lia; congruence.
@@ -692,7 +708,7 @@ Qed.
 
 (* T2 *)
 Lemma running_only_live_proof : forall c l o s1,
-  pre (exec c l) o = Some s1 ->
+  pre c (exec c l) o = Some s1 ->
   let s' := fst (step c (exec c l) o) in
   stat s' = Running ->
   (forall n, In n (a_ops s') -> In n (ops s') /\ live_in c s' (true, n)) /\
@@ -723,12 +739,12 @@ Qed.
 Lemma expired_operator_pauses_proof : forall c l n t o s1,
   stat (exec c l) = Running -> In n (a_ops (exec c l)) ->
   hb_get (true, n) (hb (exec c l)) = Some t -> t + deadline c < now (exec c l) ->
-  pre (exec c l) o = Some s1 -> o <> ORegOp n ->
+  pre c (exec c l) o = Some s1 -> o <> ORegOp n ->
   stat (fst (step c (exec c l) o)) = Paused.
 Proof.
   intros c l n t o s1 E Hn Hg Hlt P Hne. set (s := exec c l) in *.
   destruct (step_eval c s o s1 P) as [-> _].
-  destruct (pre_keeps s o s1 (true, n) t P E) as [K1 [K2 [K3 [K4 K5]]]].
+  destruct (pre_keeps c s o s1 (true, n) t P E) as [K1 [K2 [K3 [K4 K5]]]].
   - intros m -> X. inversion X; subst. contradiction.
   - intros m _ X. discriminate.
   - apply hb_get_In, Hg.
@@ -739,12 +755,12 @@ Qed.
 Lemma expired_runner_pauses_proof : forall c l n t o s1,
   stat (exec c l) = Running -> In n (a_srs (exec c l)) ->
   hb_get (false, n) (hb (exec c l)) = Some t -> t + deadline c < now (exec c l) ->
-  pre (exec c l) o = Some s1 -> o <> ORegSr n ->
+  pre c (exec c l) o = Some s1 -> o <> ORegSr n ->
   stat (fst (step c (exec c l) o)) = Paused.
 Proof.
   intros c l n t o s1 E Hn Hg Hlt P Hne. set (s := exec c l) in *.
   destruct (step_eval c s o s1 P) as [-> _].
-  destruct (pre_keeps s o s1 (false, n) t P E) as [K1 [K2 [K3 [K4 K5]]]].
+  destruct (pre_keeps c s o s1 (false, n) t P E) as [K1 [K2 [K3 [K4 K5]]]].
   - intros m _ X. discriminate.
   - intros m -> X. inversion X; subst. contradiction.
   - apply hb_get_In, Hg.
@@ -752,10 +768,20 @@ Proof.
     eapply dead_not_in_purged_sr; [exact K1 | rewrite K2; exact Hlt].
 Qed.
 
-Lemma tick_only_running_proof : forall c s,
-  o_started (snd (step c s OTick)) <> [] -> stat s = Running /\ o_started (snd (step c s OTick)) = a_srs s.
+(* the checkpoint ticker is alive exactly while the job is Running: created by every start that succeeds, stopped by
+   every pause (Running -> Paused and failed start) *)
+Lemma ticker_armed_iff_running_proof : forall c l,
+  q_ticker_once (qk c) = false -> (ticker (exec c l) = 1 <-> stat (exec c l) = Running).
+Proof. intros c l Q. apply (i_tk _ _ (exec_inv c l) Q). Qed.
+
+Lemma tick_only_running_proof : forall c l,
+  q_ticker_once (qk c) = false ->
+  o_started (snd (step c (exec c l) OTick)) <> [] ->
+  stat (exec c l) = Running /\ o_started (snd (step c (exec c l) OTick)) = a_srs (exec c l).
 Proof.
-  intros c s H. cbn [step] in *. destruct (stat s); try (cbn in H; contradiction).
+  intros c l Q H. set (s := exec c l) in *. cbn [step] in *.
+  destruct (ticker s =? 1) eqn:T; [|cbn in H; contradiction].
+  apply N.eqb_eq in T. split; [apply (ticker_armed_iff_running_proof c l Q), T|].
   destruct (create_checkpoint (sto s) (a_ops s) (a_srs s)) as [so [id|]]; cbn in *; [auto | contradiction].
 Qed.
 
@@ -772,11 +798,11 @@ Qed.
 Lemma splitter_resumes_from_deployed_checkpoint_proof : forall c s,
   stat s = Starting -> o_split (snd (step c s (OFin true))) = dep_ck s + 1.
 Proof.
-  intros c s E. cbn [step]. rewrite E. destruct (evaluate c (set_stat s Running)) as [s2 ds]. reflexivity.
+  intros c s E. cbn [step]. rewrite E. destruct (evaluate c (go_running c s)) as [s2 ds]. reflexivity.
 Qed.
 
 Lemma redeploy_when_enough_proof : forall c l o s1,
-  pre (exec c l) o = Some s1 -> stat s1 = Init \/ stat s1 = Paused ->
+  pre c (exec c l) o = Some s1 -> stat s1 = Init \/ stat s1 = Paused ->
   let s' := fst (step c (exec c l) o) in
   (stat s' = Starting /\ exists d, o_deps (snd (step c (exec c l) o)) = [d]) \/
   (stat s' = stat s1 /\ ((length (ops s') < wc c)%nat \/ (length (srs s') < wc c)%nat)).
@@ -814,7 +840,7 @@ Qed.
 Definition starter_sp (o : op) : bool := match o with OSavepoint => true | _ => false end.
 
 Lemma checkpoints_resume_proof : forall c l acks starter,
-  q_keep_pending (qk c) = false -> q_splitters_accumulate (qk c) = false -> (0 < wc c)%nat ->
+  q_keep_pending (qk c) = false -> q_splitters_accumulate (qk c) = false -> q_ticker_once (qk c) = false -> (0 < wc c)%nat ->
   starter = OTick \/ starter = OSavepoint ->
   let s := exec c l in
   stat s = Running -> pend (sto s) = None ->
@@ -830,14 +856,14 @@ Lemma checkpoints_resume_proof : forall c l acks starter,
   Forall (fun b => o_res b = 0) (snd r) /\ (exists b, In b (snd r) /\ o_published b = id) /\
   stat (fst r) = Running.
 Proof.
-  intros c l acks starter Qp Qs Hw Hst s E Pn id ND Hacks s1 r.
+  intros c l acks starter Qp Qs Qt Hw Hst s E Pn id ND Hacks s1 r.
   pose proof (exec_inv c l) as I. fold s in I.
   assert (T : step c s starter =
               (set_sto s (MkStore (Some (MkPending id (map (fun n => (n, false)) (a_ops s)) (map (fun n => (n, false)) (a_srs s)) (starter_sp starter)))
                                   (completed (sto s)) id (splitters (sto s))),
                MkObs (status_code Running) [] (a_srs s) id 0 0 0)).
-  { destruct Hst as [-> | ->]; cbn [step starter_sp]; rewrite E.
-    - unfold create_checkpoint. rewrite Pn. cbn [set_sto stat]. rewrite E. reflexivity.
+  { destruct Hst as [-> | ->]; cbn [step starter_sp]; [|rewrite E].
+    - rewrite (proj2 (i_tk _ _ I Qt) E). cbn [N.eqb Pos.eqb]. unfold create_checkpoint. rewrite Pn. cbn [set_sto stat]. rewrite E. reflexivity.
     - unfold create_savepoint. rewrite Pn. cbn [set_sto stat]. rewrite E. reflexivity. }
   unfold r, s1. rewrite T. cbn [fst snd o_started o_cid o_res].
   split; [reflexivity|]. split; [reflexivity|]. split; [reflexivity|].
@@ -910,7 +936,7 @@ Definition hist_d18 : list op := [ORegOp 0; ORegSr 0; OFin true; OTick; ODeregOp
 Definition hist_d30 : list op := [ORegOp 0; ORegSr 0; OFin true; OTick; OAckOp 0 1; OAckSr 0 1; ODeregOp 0; ORegOp 1; OFin true].
 
 Lemma checkpoints_resume_refuted_keep_pending_proof :
-  let c := cfg_of (MkQuirks true false false false) in
+  let c := cfg_of (MkQuirks true false false false false) in
   let s := exec c hist_d18 in
   stat s = Running /\ a_ops s = [1] /\ a_srs s = [0] /\
   (* every tick from now on starts nothing, whatever the members of the running assembly acknowledge *)
@@ -918,7 +944,7 @@ Lemma checkpoints_resume_refuted_keep_pending_proof :
             completed (sto s') = 0 /\ o_started (snd (step c s' OTick)) = [].
 Proof.
   cbv zeta. split; [vm_compute; reflexivity|]. split; [vm_compute; reflexivity|]. split; [vm_compute; reflexivity|].
-  intros k. set (c := cfg_of (MkQuirks true false false false)). set (s := exec c hist_d18).
+  intros k. set (c := cfg_of (MkQuirks true false false false false)). set (s := exec c hist_d18).
   assert (T : forall k, fst (run c s (repeat OTick k ++ [OAckOp 1 1; OAckSr 0 1; OAckOp 1 2; OAckSr 0 2; OTick])) =
                         fst (run c s [OAckOp 1 1; OAckSr 0 1; OAckOp 1 2; OAckSr 0 2; OTick])).
   { intros j. induction j as [|j IH]; [reflexivity|]. cbn [repeat app]. rewrite <- IH.
@@ -930,7 +956,7 @@ Proof.
 Qed.
 
 Lemma checkpoints_resume_refuted_splitters_proof :
-  let c := cfg_of (MkQuirks false true false false) in
+  let c := cfg_of (MkQuirks false true false false false) in
   let s := exec c hist_d30 in
   stat s = Running /\ a_ops s = [1] /\ a_srs s = [0] /\ pend (sto s) = None /\
   map o_res (snd (run c s [OTick; OAckOp 1 2; OAckSr 0 2])) = [0; 0; 2] /\
@@ -943,13 +969,22 @@ Definition hist_sp_a : list op := [ORegOp 0; ORegSr 0; OFin true; OSavepoint; OA
 Definition hist_sp_b : list op := [ORegOp 0; ORegSr 0; OFin true; OTick; OSavepoint; OAckSr 0 1; ODeregOp 0; ORegOp 1; OFin true].
 
 Lemma checkpoints_resume_refuted_keep_savepoint_proof :
-  let c := cfg_of (MkQuirks false false false true) in
+  let c := cfg_of (MkQuirks false false false true false) in
   forall h, h = hist_sp_a \/ h = hist_sp_b ->
   let s := exec c h in
   stat s = Running /\ a_ops s = [1] /\ a_srs s = [0] /\
   step c s OTick = (s, mk_obs s []) /\ o_res (snd (step c s OSavepoint)) = 1 /\ fst (step c s OSavepoint) = s /\
   completed (sto (fst (run c s [OAckOp 1 1; OAckSr 0 1; OAckOp 1 2; OAckSr 0 2]))) = 0.
 Proof. intros c h [-> | ->]; vm_compute; repeat split; reflexivity. Qed.
+
+(* seeded C15r2-1: the ticker is created once only; every pause stops it: after the first recovery it never fires again *)
+Definition hist_tk : list op := [ORegOp 0; ORegSr 0; OFin true; OTick; OAckOp 0 1; OAckSr 0 1; ODeregOp 0; ORegOp 1; OFin true].
+Lemma checkpoints_resume_refuted_ticker_once_proof :
+  let c := cfg_of (MkQuirks false false false false true) in
+  let s := exec c hist_tk in
+  stat s = Running /\ a_ops s = [1] /\ a_srs s = [0] /\ pend (sto s) = None /\ completed (sto s) = 1 /\
+  ticker s = 2 /\ step c s OTick = (s, mk_obs s []).
+Proof. vm_compute. repeat split; reflexivity. Qed.
 
 (* ---------------------------------------------------------------- the operator's checkpoint slot *)
 Lemma oper_barriers_complete : forall id runners w order,
